@@ -135,7 +135,7 @@ def build(rng, size="small", canonical=True, depth=0):
                 n, r = rng.choice(INTOPS)
                 ins = I(n, rng.randrange(r) if rng.random() < 0.8 else min(r - 1, rng.choice([0, 255, 256, 65535, 65536])), line_number=ln)
             else:
-                ins = None   # jump placeholder, filled below
+                ins = ("JUMP", ln)   # jump placeholder (keeps its own line), filled below
             block.append(ins)
         blocks.append(block)
     # big tables: make sure the tail of each big table is referenced at least once
@@ -153,9 +153,9 @@ def build(rng, size="small", canonical=True, depth=0):
     targeted = set([0])
     for b, block in enumerate(blocks):
         for i, ins in enumerate(block):
-            if ins is not None:
+            if not (isinstance(ins, tuple) and ins and ins[0] == "JUMP"):
                 continue
-            ln = None if rng.random() < 0.05 else line
+            ln = ins[1]
             if rng.random() < 0.55 or b == nblocks - 1 or not RELJUMPS:
                 t = rng.randrange(nblocks)
                 block[i] = I(rng.choice(ABSJUMPS), J(t, False), line_number=ln)
